@@ -170,6 +170,45 @@ def basquin_spec(o):
     o.canary('canary: cycles uses +k_1', z3.Implies(z3.And(S > SD), nv == ND * spec_pow(S / SD, k1)))
 
 
+@obligation('C08', 'basquin.uses-transformed-curve', functions=[WC + '.basquin_cycles', WC + '.basquin_load', WC + '.cycles', WC + '.load'])
+def uses_transformed(o):
+    """a curve stored at ANY failure probability p0, evaluated at ANY probability p: cycles / load are the Basquin values of the curve transformed to p.
+    transform_to_failure_probability is replaced by its contract 'returns the curve T(p)' with uninterpreted knee parameters SD_T(p), ND_T(p), of which only the
+    identity T(p0) = self is known (proved in transform.identity) - so leaving the transformation out is accepted exactly when p = p0 (added after seed C08-c left it out
+    for p = 0.5 whatever p0 is)"""
+    broadcast_spec(o)
+    p0, p = o.reals('p0 p')
+    o.assume(p0 > 0, p0 < 1, p > 0, p < 1)
+    wc, rec = curve(o, fp=p0)
+    k1, ND, SD, k2 = rec.fields['k_1'].t, rec.fields['ND'].t, rec.fields['SD'].t, rec.fields['k_2']
+    SDT = z3.Function('SD_T', z3.RealSort(), z3.RealSort())
+    NDT = z3.Function('ND_T', z3.RealSort(), z3.RealSort())
+    o.assume(SDT(p0) == SD, NDT(p0) == ND, SDT(p) > 0, NDT(p) > 0)
+
+    def apply(I, args, kw):
+        self_obj, q = args[0], args[1]
+        qt = q.t if isinstance(q, SV) else RV(float(q))
+        new = Obj(self_obj.cls)
+        new.fields = dict(self_obj.fields)
+        r = self_obj.fields['_obj'].copy()
+        r.fields['SD'] = SV(SDT(qt))
+        r.fields['ND'] = SV(NDT(qt))
+        r.fields['failure_probability'] = SV(qt)
+        new.fields['_obj'] = r
+        return new
+    o.spec(WC + '.transform_to_failure_probability', apply)
+    S, N = o.reals('S N')
+    o.assume(S > 0, N > 0)
+    for kind in ('scalar', 'ndarray'):
+        n = o.run1(lambda: call(o, wc, 'cycles', SV(S, kind=kind), SV(p)), label=f'cycles[{kind}]')
+        o.prove(f'cycles(S, p): S >= SD_T(p) -> ND_T(p) (S/SD_T(p))^-k_1 [{kind}]', z3.Implies(S >= SDT(p), z3.And(z3.Not(n.P()), n.t == NDT(p) * spec_pow(S / SDT(p), -k1))))
+        o.prove(f'cycles(S, p): S < SD_T(p), k_2 = inf -> inf [{kind}]', z3.Implies(z3.And(S < SDT(p), k2.P()), n.P()))
+        ld = o.run1(lambda: call(o, wc, 'load', SV(N, kind=kind), SV(p)), label=f'load[{kind}]')
+        o.prove(f'load(N, p): N <= ND_T(p) -> SD_T(p) (N/ND_T(p))^(-1/k_1) [{kind}]', z3.Implies(N <= NDT(p), ld.t == SDT(p) * spec_pow(N / NDT(p), -1 / k1)))
+        o.prove(f'load(N, p): N > ND_T(p), k_2 = inf -> SD_T(p) [{kind}]', z3.Implies(z3.And(N > NDT(p), k2.P()), ld.t == SDT(p)))
+    o.canary('canary: cycles ignores the requested probability', z3.Implies(S >= SD, n.t == ND * spec_pow(S / SD, -k1)))
+
+
 @obligation('C08', 'basquin.inverse', functions=WCF)
 def basquin_inverse(o):
     """load(cycles(S)) = S wherever the life is finite, cycles(load(N)) = N (for k_2 = inf only up to ND); cycles non-increasing in S;
@@ -425,6 +464,23 @@ def b_broadcast(ctx):
                     vals[tname] = f'{type(e).__name__}'
             if any(isinstance(v, str) or not (v == vals['float'] or abs(v - vals['float']) <= 1e-9 * abs(vals['float'])) for v in vals.values()):
                 ctx.fail('C08:operand-type:cycles', f'cycles({Lint}) depends on the type of the load: {vals}', {'curve': s.to_dict(), 'load': Lint, 'p': p})
+        # the same physical curve stored at another failure probability: evaluation at any probability (also the default 0.5) agrees with the 50 % curve,
+        # and load / cycles stay inverse on it (added after seed C08-c skipped the probability shift for the default argument 0.5)
+        arr0 = arr
+        arr = np.array([s.SD * 0.5, s.SD * 1.2, s.SD * 1.7])      # not exactly the knee load: with k_2 = inf the cycle number jumps there and the shifted SD carries rounding
+        for pn in (0.1, 0.9):
+            stored = s.woehler.transform_to_failure_probability(pn).to_pandas()
+            for pq in (None, 0.5, 0.3):
+                a_ = np.asarray(stored.woehler.cycles(arr) if pq is None else stored.woehler.cycles(arr, pq), dtype=float)
+                b_ = np.asarray(s.woehler.cycles(arr, 0.5 if pq is None else pq), dtype=float)
+                if not np.allclose(a_, b_, rtol=1e-9, equal_nan=True):
+                    ctx.fail('C08:native-probability:cycles', f'curve stored at p={pn}: cycles({arr.tolist()}, {pq}) = {a_.tolist()} but the 50 % curve gives {b_.tolist()}', {'curve': s.to_dict(), 'stored_at': pn, 'p': pq})
+            fin = np.isfinite(np.asarray(stored.woehler.cycles(arr), dtype=float))
+            if fin.any():
+                back = np.asarray(stored.woehler.load(np.asarray(stored.woehler.cycles(arr), dtype=float)[fin]), dtype=float)
+                if not np.allclose(back, arr[fin], rtol=1e-8):
+                    ctx.fail('C08:native-probability:inverse', f'curve stored at p={pn}: load(cycles(L)) = {back.tolist()} for L = {arr[fin].tolist()}', {'curve': s.to_dict(), 'stored_at': pn})
+        arr = arr0
         p1, p2 = rng.uniform(0.02, 0.98, 2)
         a = s.woehler.transform_to_failure_probability(p1).transform_to_failure_probability(p2).to_pandas()
         b = s.woehler.transform_to_failure_probability(p2).to_pandas()
